@@ -39,7 +39,7 @@ def fill_headers(rng, need, style):
 class C62(hc.PProp):
     id = 'C62'
     rule = ('each run draws request_header_max_size and reply_header_max_size (2-48 KB) and sends 3-8 requests whose head size is drawn around '
-            'the limit (limit-2000 .. limit+2000), far beyond it, or small; the excess sits in one huge field, many fields or the URL; heads arrive '
+            'the limit (limit-2000 .. limit+2000), far beyond it, or small; the excess sits in one huge field, many fields, the URL, whitespace inside the request line or the reason phrase of the status line; heads arrive '
             'incrementally (seeded segmentation, pacing). Origin response heads are sized the same way against reply_header_max_size. non-trivial = '
             'an oversize request or response head (beyond the +-64 byte band) was judged; distinct = history fingerprint')
     quick_runs = 300
@@ -70,7 +70,7 @@ class C62(hc.PProp):
                  'seg': rng.choice(['rand', 'rand', 'whole']), 'pace': rng.choice([0, 0, 100])}
             t['size'] = max(200, size_near(reqlim if t['which'] == 'req' else replim))
             if t['which'] == 'resp' and t['style'] in ('url', 'ws'):
-                t['style'] = 'one'
+                t['style'] = rng.choice(['one', 'reason'])     # reason: part of the head's size sits in the status line (a long reason phrase)
             txns.append(t)
         plan['txns'] = txns
         plan['_lists'] = ['txns']
@@ -107,8 +107,16 @@ class C62(hc.PProp):
                 head = hc.request_head(b'GET', url, base_h)
                 rbase = hc.response_head(200, [(b'Content-Length', b'2'), (b'X-Sim-Ver', b'z' + rid.encode())])
                 need = t['size'] - len(rbase)
-                hd = [(b'Content-Length', b'2'), (b'X-Sim-Ver', b'z' + rid.encode())] + (fill_headers(rng, need, t['style']) if need >= 12 else [])
-                rh = hc.response_head(200, hd)
+                if t['style'] == 'reason' and need >= 40:
+                    inline = rng.choice([need, need // 2, need - 13, min(need, 1800)])     # bytes of the excess that go into the reason phrase
+                    rest = need - inline
+                    if 0 < rest < 12:
+                        inline, rest = need, 0
+                    hd = [(b'Content-Length', b'2'), (b'X-Sim-Ver', b'z' + rid.encode())] + (fill_headers(rng, rest, 'many') if rest >= 12 else [])
+                    rh = hc.response_head(200, hd).replace(b' OK\r\n', b' OK' + b' ' + b'r' * (inline - 1) + b'\r\n', 1)
+                else:
+                    hd = [(b'Content-Length', b'2'), (b'X-Sim-Ver', b'z' + rid.encode())] + (fill_headers(rng, need, 'one' if t['style'] == 'reason' else t['style']) if need >= 12 else [])
+                    rh = hc.response_head(200, hd)
                 resp = rh + b'ok'
                 expect[rid] = {'which': 'resp', 'size': len(rh)}
             if t['which'] == 'req':
